@@ -724,6 +724,11 @@ def read_tables():
                 if e != els[0]:
                     raise RuntimeError(f"covariance element names differ between writers: {e} vs {els[0]}")
     t["covElems"] = els[0]
+    # key of entry (i, j), j <= i, as the writers spell it: f"C{a}_{b}" (cov.py builds it as "C" + f"{a}_{b}")
+    srcs = {f: open(os.path.join(CCSDS_DIR, f)).read() for f in ("cov.py", "opm.py", "omm.py", "oem.py")}
+    if 'txt = f"{a}_{b}"' not in srcs["cov.py"] or 'f"C{txt:<19}' not in srcs["cov.py"] or any(srcs[f].count('f"C{a}_{b}"') < 1 for f in ("opm.py", "omm.py", "oem.py")):
+        raise RuntimeError("covariance key spelling changed in the writers")
+    t["covWriteKeys"] = [[f"C{a}_{b}" for b in els[0][: i + 1]] for i, a in enumerate(els[0])]
     for n in ast.walk(lc):
         if isinstance(n, ast.Assign) and isinstance(n.targets[0], ast.Name) and n.targets[0].id == "values":
             t["covRead"] = [[_const(c.value.slice) for c in row.elts] for row in n.value.elts]
@@ -796,6 +801,7 @@ def extract(ctx):
          f"def unitNames : List String := {lstr(t['unitNames'])}",
          f"def covElems : List String := {lstr(t['covElems'])}",
          "def covRead : List (List String) := [" + ",\n  ".join(lstr(r) for r in t["covRead"]) + "]",
+         "def covWriteKeys : List (List String) := [" + ",\n  ".join(lstr(r) for r in t["covWriteKeys"]) + "]",
          "def covAliasOut : List (String × String) := [" + ", ".join(pair(a, b) for a, b in t["covAliasOut"]) + "]",
          f"def covAliasIn : List String × String := ({lstr(t['covAliasIn'][0])}, {json.dumps(t['covAliasIn'][1])})",
          "def manAliasOut : List (String × String) := [" + ", ".join(pair(a, b) for a, b in t["manAliasOut"]) + "]",
